@@ -106,6 +106,7 @@ type Exec struct {
 	Log      []string
 	Fails    []Failure
 	Keys     int // distinct state keys first seen in this execution
+	Trace    []string
 }
 
 // Failure is an oracle failure reported by a harness.
@@ -124,9 +125,10 @@ type runtimeState struct {
 	timerSeq uint64
 	chans    map[uintptr]*chanState
 
-	prefix []int
-	pos    int
-	x      *Exec
+	prefix     []int
+	prefixSigs []uint32
+	pos        int
+	x          *Exec
 
 	maxSteps int
 	finished bool
@@ -137,6 +139,7 @@ type runtimeState struct {
 	bound     int
 	spent     int
 	useCache  bool
+	trace     bool
 	quiet     bool // setup / settle phase: default choices only, nothing recorded
 	keysSeen  int
 	resetters []func()
@@ -188,6 +191,9 @@ func Point(kind OpKind, en func() bool) {
 	t.kind = kind
 	t.en = en
 	t.hash = mix(t.hash, uint64(kind)+0x100)
+	if r.trace {
+		r.x.Trace = append(r.x.Trace, fmt.Sprintf("t%d(%s):%s %s", t.id, t.name, kind, callerInfo()))
+	}
 	r.reschedule(t, false)
 	t.en = nil
 }
@@ -343,6 +349,20 @@ func (r *runtimeState) finish() {
 	}
 }
 
+func (r *runtimeState) describeAll() string {
+	var sb strings.Builder
+	for _, u := range r.threads {
+		st := "parked"
+		if u.done {
+			st = "done"
+		} else if r.enabled(u) {
+			st = "enabled"
+		}
+		fmt.Fprintf(&sb, "[t%d %s %s@%s]", u.id, u.name, st, u.kind)
+	}
+	return sb.String()
+}
+
 func (r *runtimeState) describeBlocked() string {
 	var sb strings.Builder
 	for _, u := range r.threads {
@@ -365,6 +385,9 @@ func (r *runtimeState) choose(kind byte, n int, cost []uint8, sig uint32) int {
 	idx := len(r.x.Choices)
 	if idx < len(r.prefix) {
 		pick = r.prefix[idx]
+		if idx < len(r.prefixSigs) && r.prefixSigs[idx] != sig && r.x.Diverged == "" {
+			r.x.Diverged = fmt.Sprintf("choice %d (kind %c, %d alternatives): alternatives differ from the recorded run; running thread %s at %s; threads: %s", idx, kind, n, r.cur.name, r.cur.kind, r.describeAll())
+		}
 		if pick >= n {
 			r.x.Diverged = fmt.Sprintf("choice %d: prefix wants alternative %d of %d (kind %c)", idx, pick, n, kind)
 			pick = 0
@@ -580,10 +603,12 @@ func NameThread(n string) {
 
 // RunOptions configure one execution.
 type RunOptions struct {
-	Prefix   []int
-	MaxSteps int
-	Bound    int
-	Cache    map[uint64]int8 // nil disables state caching
+	Trace      bool
+	Prefix     []int
+	PrefixSigs []uint32 // optional: signatures recorded by the parent run (divergence detection)
+	MaxSteps   int
+	Bound      int
+	Cache      map[uint64]int8 // nil disables state caching
 }
 
 // Base of the virtual clock: 2026-01-01T00:00:00Z in unix nanoseconds.
@@ -603,6 +628,7 @@ func RunOnce(body func(), o RunOptions) *Exec {
 	r.timerSeq = 0
 	r.chans = map[uintptr]*chanState{}
 	r.prefix = append([]int(nil), o.Prefix...)
+	r.prefixSigs = o.PrefixSigs
 	r.x = &Exec{}
 	r.maxSteps = o.MaxSteps
 	if r.maxSteps == 0 {
@@ -612,6 +638,7 @@ func RunOnce(body func(), o RunOptions) *Exec {
 	r.doneCh = make(chan struct{})
 	r.aborting = false
 	r.quiet = false
+	r.trace = o.Trace
 	r.bound = o.Bound
 	r.spent = 0
 	r.cache = o.Cache
@@ -645,7 +672,7 @@ func RunOnce(body func(), o RunOptions) *Exec {
 	active.Store(false)
 	x := r.x
 	if x.Diverged == "" && len(x.Choices) < len(o.Prefix) && !x.Pruned {
-		x.Diverged = fmt.Sprintf("execution ended after %d choices but prefix has %d", len(x.Choices), len(o.Prefix))
+		x.Diverged = fmt.Sprintf("execution ended after %d choices but prefix has %d (steps=%d deadlock=%q horizon=%v panic=%q log=%v)", len(x.Choices), len(o.Prefix), x.Steps, x.Deadlock, x.Horizon, x.Panic, x.Log)
 	}
 	return x
 }
@@ -681,5 +708,39 @@ func Visible() {
 func Quiet(q bool) {
 	if Active() {
 		rt.quiet = q
+	}
+}
+
+func callerInfo() string {
+	pcs := make([]uintptr, 12)
+	n := runtime.Callers(3, pcs)
+	frames := runtime.CallersFrames(pcs[:n])
+	var out []string
+	for {
+		f, more := frames.Next()
+		if !strings.Contains(f.Function, "zzverif/") {
+			fn := f.Function
+			if i := strings.LastIndex(fn, "/"); i >= 0 {
+				fn = fn[i+1:]
+			}
+			out = append(out, fmt.Sprintf("%s:%d", fn, f.Line))
+			if len(out) >= 3 {
+				break
+			}
+		}
+		if !more {
+			break
+		}
+	}
+	return strings.Join(out, " < ")
+}
+
+// Tracing reports whether the current execution records a trace (debugging aid).
+func Tracing() bool { return Active() && rt.trace }
+
+// TraceNote appends a note to the trace.
+func TraceNote(s string) {
+	if Tracing() {
+		rt.x.Trace = append(rt.x.Trace, "   note: "+s)
 	}
 }
